@@ -3,7 +3,7 @@ Import ListNotations.
 From BB Require Import BN Brute SpaceFacts TrapFacts PercolateFacts AttractorFacts Diagram Invariants Checks Filter
   Strict PetriNet Control Meta FilterFacts PetriNetFacts TrappistFacts DiagramStruct DiagramSem1 DiagramCache
   DiagramDepth DiagramComplete Termination ControlFacts MetaFacts Candidates StrictFacts MinExpandFacts CandidatesFacts SymbolicTest SymbolicTestFacts Signed ReductionFacts ControlFacts2 Main Blocks BlocksFacts ObsFacts OwnerFacts CandidatesTerm
-  PartialOwner BlockMath BlockComplete ASeeds ASeedsFacts LogChecks SkipRule SkipRuleFacts Names NamesFacts Perm PermFacts SCC SCCFacts SCCStruct ControlFacts3 SCCTerm FilterSym Main2 StrategyFacts ControlFacts4 PyLib PySrc PySrcFacts SkipRuleFacts2 SCCComplete SCCAttr BlockComplete2 ControlFacts5 Iso."""
+  PartialOwner BlockMath BlockComplete ASeeds ASeedsFacts LogChecks SkipRule SkipRuleFacts Names NamesFacts Perm PermFacts SCC SCCFacts SCCStruct ControlFacts3 SCCTerm FilterSym Main2 StrategyFacts ControlFacts4 PyLib PySrc PySrcFacts SkipRuleFacts2 SCCComplete SCCAttr BlockComplete2 ControlFacts5 Iso SkipSem."""
 
 EX_NET = """
 (* non-vacuity: two bistable switches; x0'=x1, x1'=x0, x2'=x3, x3'=x2 *)
@@ -185,7 +185,10 @@ half of the statement that survives (no spurious seeds).""",
            ("ideal_seeds_sound", "ideal_seeds_sound", None),
            ("rule_only_for_skip_nodes", "no_skip_no_exclusion", None),
            ("leaf_attractors_never_lost", "leaf_attractors_represented", "whatever was computed before, a leaf (minimal trap space) reports every attractor inside it"),
-           ("no_maa_nothing_lost", "no_maa_nothing_lost", "the positive half: without motif-avoidant attractors a diagram completed by skipping loses no attractor; the loss of C05_refuted needs a motif-avoidant attractor")],
+           ("no_maa_nothing_lost", "no_maa_nothing_lost", "the positive half: without motif-avoidant attractors a diagram completed by skipping loses no attractor; the loss of C05_refuted needs a motif-avoidant attractor"),
+           ("skip_semantics_after_any_history", "run_AnyInv", "every diagram reached by ANY history (skip operations included) satisfies AnyInv: well-formed, trap nodes, strict edges, faithful, and every skip node is expanded, its edges lead to minimal trap spaces with the space itself as motif, and EVERY minimal trap space inside it is one of its children"),
+           ("skip_semantics_step", "step_AnyInv", None),
+           ("expanded_node_keeps_minimal_traps", "expanded_min_descends", "in any such diagram every minimal trap space inside an expanded node (canonical or skip) is inside one of its children or is the node itself: skipping never loses a minimal trap space")],
  examples="")
 
 SPEC["C06"] = dict(title="Every intervention reported successful really forces the network into the target", comment="""
